@@ -1,12 +1,15 @@
 import Uquic.Oracle.Frame
 import Uquic.Spec.AmpMon
+import Uquic.Model.Amp.RecvGlue
 
 /-!
-Oracle of the end-to-end support driver `ampe2e` (C14): there is no model to compare with (the text is
-echoed); the property's observable statement `Uquic.Spec.AmpMon.WireSt.step` is evaluated on the wire
-events the real server produced.
+Oracle of the end-to-end support driver `ampe2e` (C14): the property's observable statement
+`Uquic.Spec.AmpMon.WireSt.step` is evaluated on the wire events the real server produced; for datagrams the driver
+injected (their packets are known exactly from the op text) `Uquic.Model.Recv` predicts how many packets the
+connection counts (`pr=`), everything else is echoed.
 -/
 open Uquic.Oracle Uquic.Spec.AmpMon
+open Uquic.Model.Recv (RawPkt Kind)
 
 structure ESt where
   w : WireSt := {}
@@ -14,15 +17,63 @@ structure ESt where
   closedLocally : Bool := false
   /-- the server connection's own bytesReceived after the previous op, when exactly one connection existed -/
   prevHr : Option Nat := none
+  prevPr : Option Nat := none
+  /-- ghost: packets the connection may have accepted so far (every packet of a real client datagram, the authentic new
+      packets of injected ones) -/
+  maxPkts : Nat := 0
+  /-- ghost: bytes of injected datagrams that carry forged long-header packets (they may sit in the connection's buffer) -/
+  bufferable : Nat := 0
+  /-- ghost: largest excess of the connection's received-bytes counter over the bytes that arrived, seen so far -/
+  excess : Nat := 0
+  multi : Bool := false
 
-def parseEv (s : String) : Option (Bool × Nat × Bool × Bool) :=
-  -- (isIn, size, hasHandshake, hasToken)
+structure WEv where
+  isIn : Bool
+  size : Nat
+  hs : Bool := false
+  tok : Bool := false
+  injected : Bool := false
+  npk : Nat := 0
+
+def parseEv (s : String) : Option WEv :=
   if s.startsWith "i" then
     let rest := (s.drop 1).toString
     let digits := String.ofList (rest.toList.takeWhile Char.isDigit)
-    some (true, natOf digits, rest.contains 'H', rest.contains 'T')
-  else if s.startsWith "o" then some (false, natOf (s.drop 1).toString, false, false)
+    let npk := match rest.splitOn "p" with
+      | [_, k] => natOf k
+      | _ => 0
+    some { isIn := true, size := natOf digits, hs := rest.contains 'H', tok := rest.contains 'T', injected := rest.contains 'J', npk := npk }
+  else if s.startsWith "o" then some { isIn := false, size := natOf (s.drop 1).toString }
   else none
+
+/-- the packets of an injected datagram, read off the op text (sizes are not needed for what is predicted) -/
+def injectedPkts (w : List String) : Option (List RawPkt) :=
+  let ini : RawPkt := { kind := .initial, size := 0, authentic := true }
+  let forged (k : Kind) : RawPkt := { kind := k, size := 0, authentic := false }
+  match w with
+  | ["pinginitial"] => some [ini]
+  | ["badinitial"] => some [{ ini with framesOk := false }]
+  | ["garbage", _] => some [forged .short]
+  | ["forgedhs", _, _] => some [forged .handshake]
+  | ["coalesced", kind, k, pad] =>
+    let k := natOf k
+    let pad := natOf pad
+    if kind == "I" then some (List.replicate k ini)
+    else if kind == "Z" then some (ini :: List.replicate (k - 1) (forged .zeroRTT))
+    else if kind == "H" then some (ini :: List.replicate (k - 1) (forged .handshake))
+    else if kind == "Y" then some (List.replicate k (forged .zeroRTT))
+    else if kind == "D" then some (ini :: List.replicate (k - 1) { ini with fresh := false })
+    else if kind == "G" then some (ini :: (if (k - 1) * pad > 0 then [{ forged .short with headerOk := false }] else []))
+    else none
+  | _ => none
+
+/-- does the injected datagram carry packets for which the connection may not have keys yet (Handshake, 0-RTT, 1-RTT)? -/
+def carriesForgedLong (w : List String) : Bool :=
+  match w with
+  | ["forgedhs", _, _] => true
+  | ["garbage", _] => true
+  | ["coalesced", kind, _, _] => kind == "Z" || kind == "H" || kind == "Y"
+  | _ => false
 
 def step (s : ESt) (op impl : String) : ESt × StepOut := Id.run do
   let w := words op
@@ -46,7 +97,19 @@ def step (s : ESt) (op impl : String) : ESt × StepOut := Id.run do
     tags := tags ++ ["close:badinitial"]
   if opName == "garbage" && iw.headD "" == "ok" then tags := tags ++ ["garbage"]
   if opName == "pinginitial" && iw.headD "" == "ok" then tags := tags ++ ["pinginitial"]
-  for (isIn, n, hs, tok) in evs do
+  -- bytes that arrive in this step, and what the connection's own counter says about them afterwards
+  let fld (k : String) : Option Nat := (iw.findSome? fun x => if x.startsWith k then some (x.drop k.length).toString else none).bind (·.toNat?)
+  let arrivedNow := evs.foldl (fun acc e => if e.isIn then acc + e.size else acc) 0
+  match fld "conns=", fld "hr=" with
+  | some 1, some hr =>
+    let inAfter := s.w.inB + arrivedNow
+    if hr > inAfter && hr - inAfter > s.excess then s := { s with excess := hr - inAfter }
+  | _, _ => pure ()
+  if carriesForgedLong w && iw.headD "" == "ok" then s := { s with bufferable := s.bufferable + arrivedNow }
+  -- does the re-credit of buffered packets (known finding) explain a counter that is `x` above the arrivals?
+  let recredit (x : Nat) : Bool := x > 0 && x ≤ 2 * s.bufferable
+  for e in evs do
+    let (isIn, n, hs, tok) := (e.isIn, e.size, e.hs && !e.injected, e.tok && !e.injected)
     if isIn then
       s := { s with w := s.w.step (.inn n) }
       if (hs || (tok && s.retry)) && !s.w.validated then
@@ -62,32 +125,70 @@ def step (s : ESt) (op impl : String) : ESt × StepOut := Id.run do
           -- a datagram left although the budget was exhausted.  Once the connection was closed locally the
           -- only thing the server still writes for it is the CONNECTION_CLOSE datagram (and its retransmissions
           -- by closedLocalConn): that is the listed finding; anything else is a fresh violation.
-          let cls := if s.closedLocally then "close_unaccounted" else "-"
-          tags := tags ++ [if s.closedLocally then "out:close-at-limit" else "out:at-limit"]
+          let explained := recredit s.excess && belowLimit before.outB (before.inB + s.excess)
+          let cls := if s.closedLocally then "close_unaccounted" else if explained then "requeued_credit" else "-"
+          tags := tags ++ [if s.closedLocally then "out:close-at-limit" else if explained then "out:on-recredited-budget" else "out:at-limit"]
           fails := fails ++ [("wire_send_at_limit", cls,
             s!"{n} bytes written with sent={before.outB} received={before.inB} (3x = {3 * before.inB}) while the client address is unvalidated")]
         if !s.closedLocally && !boundOk s.w.outB s.w.inB s.w.last then
-          fails := fails ++ [("wire_amp_bound", "-", s!"sent={s.w.outB} > 3*{s.w.inB} + last datagram {s.w.last}")]
+          let cls := if recredit s.excess && boundOk s.w.outB (s.w.inB + s.excess) s.w.last then "requeued_credit" else "-"
+          fails := fails ++ [("wire_amp_bound", cls, s!"sent={s.w.outB} > 3*{s.w.inB} + last datagram {s.w.last}")]
   if opName == "coalesced" && iw.headD "" == "ok" then tags := tags ++ [s!"coalesced:{w.getD 1 "?"}"]
   -- the connection's own accounting against the datagram log: a datagram is credited exactly once
-  let fld (k : String) : Option Nat := (iw.findSome? fun x => if x.startsWith k then some (x.drop k.length).toString else none).bind (·.toNat?)
-  let arrivedNow := evs.foldl (fun acc (isIn, n, _, _) => if isIn then acc + n else acc) 0
+  let realIn := evs.any fun e => e.isIn && !e.injected
+  let mut model := impl
   match fld "conns=", fld "hr=" with
   | some conns, some hr =>
     if conns ≥ 1 && hr > s.w.inB then
-      fails := fails ++ [("datagram_credited_once", "-", s!"the connection credited {hr} received bytes, only {s.w.inB} arrived at the server")]
+      let cls := if conns == 1 && recredit (hr - s.w.inB) then "requeued_credit" else "-"
+      if cls != "-" then tags := tags ++ ["credited:requeued-again"]
+      fails := fails ++ [("datagram_credited_once", cls, s!"the connection credited {hr} received bytes, only {s.w.inB} arrived at the server")]
     if conns == 1 then
       match s.prevHr with
       | some p =>
         -- judged only while the client's address is unvalidated (the phase the property is about): later the
         -- handshake connection IDs are retired and injected datagrams are no longer attributed to the connection
         if !s.retry && !s.closedLocally && !s.w.validated && hr ≠ p + arrivedNow then
-          fails := fails ++ [("datagram_credited_once", "-", s!"{arrivedNow} bytes arrived in this step, the connection credited {hr - p}")]
+          -- more than arrived, in a step in which data of the real client arrived (keys may have been installed), by at
+          -- most what sits in the buffer: the second credit of buffered packets (known finding); anything else is fresh
+          let cls := if realIn && hr > p + arrivedNow && hr - (p + arrivedNow) ≤ s.bufferable then "requeued_credit" else "-"
+          fails := fails ++ [("datagram_credited_once", cls, s!"{arrivedNow} bytes arrived in this step, the connection credited {hr - p}")]
         else tags := tags ++ (if arrivedNow > 0 then ["credited:exact"] else [])
       | none => pure ()
       s := { s with prevHr := some hr }
     else s := { s with prevHr := none }
   | _, _ => s := { s with prevHr := none }
-  return (s, { model := impl, tags := tags, fails := fails })
+  -- which packets the connection counted (ConnectionStats.PacketsReceived = the handler's ReceivedPacket calls)
+  let inj := if iw.headD "" == "ok" then injectedPkts w else none
+  let injAccept := match inj with
+    | some pkts => (({ h := Uquic.Model.Amp.H.new .server false } : Uquic.Model.Recv.C).datagram 0 pkts).packets
+    | none => 0
+  let realPkts := evs.foldl (fun acc e => if e.isIn && !e.injected then acc + e.npk else acc) 0
+  s := { s with maxPkts := s.maxPkts + injAccept + realPkts }
+  match fld "conns=", fld "pr=", fld "hv=" with
+  | some conns, some pr, some hv =>
+    if conns > 1 then s := { s with multi := true }
+    if conns ≥ 1 && hv == 1 && !s.w.validated then
+      fails := fails ++ [("validated_without_authenticated_handshake", "-",
+        "the server connection counts the client's address as validated although no datagram of the real client containing a Handshake packet (and no Retry token) was delivered to it")]
+    if conns == 1 && !s.multi && pr > s.maxPkts then
+      fails := fails ++ [("packet_counted_unauthenticated", "-",
+        s!"the connection counts {pr} received packets; only {s.maxPkts} packets that it could authenticate arrived")]
+    if conns == 1 then
+      match s.prevPr, inj with
+      | some p, some pkts =>
+        -- exact while unvalidated, one connection, nothing but the injected datagram arrived: Model.Recv's count
+        if !s.retry && !s.closedLocally && !s.w.validated && !realIn && !pkts.any (fun q => !q.framesOk) then
+          let want := p + injAccept
+          tags := tags ++ [s!"pr:model:{injAccept}"]
+          if pr ≠ want then
+            model := " ".intercalate (iw.map fun x => if x.startsWith "pr=" then s!"pr={want}" else x)
+      | _, _ => pure ()
+      s := { s with prevPr := some pr }
+    else s := { s with prevPr := none }
+  | _, _, _ => s := { s with prevPr := none }
+  if opName == "forgedhs" && iw.headD "" == "ok" then tags := tags ++ [s!"forgedhs:{w.getD 2 "?"}"]
+  if opName == "release" && iw.headD "" == "ok" then tags := tags ++ ["release"]
+  return (s, { model := model, tags := tags, fails := fails })
 
 def main : IO Unit := run { init := ({} : ESt), step := step }
